@@ -139,6 +139,28 @@ func (x *Exec) siteAnns(st *State, fr *Frame, pos token.Pos) (string, []*SiteAnn
 	return name, x.curContract.Sites[name]
 }
 
+// explicitArgs returns the call's arguments as written in the source (without a method receiver).
+func explicitArgs(cc *ssa.CallCommon) []ssa.Value {
+	if cc.IsInvoke() {
+		return cc.Args
+	}
+	if f := cc.StaticCallee(); f != nil && f.Signature.Recv() != nil && len(cc.Args) > 0 {
+		return cc.Args[1:]
+	}
+	return cc.Args
+}
+
+func (x *Exec) siteEnvCall(st *State, fr *Frame, cc *ssa.CallCommon) *specEnv {
+	env := x.siteEnv(st, fr, cc.Pos())
+	for k, a := range explicitArgs(cc) {
+		func() {
+			defer func() { recover() }()
+			env.vars[fmt.Sprintf("arg%d", k)] = x.val(st, fr, a)
+		}()
+	}
+	return env
+}
+
 func (x *Exec) siteEnv(st *State, fr *Frame, pos token.Pos) *specEnv {
 	env := &specEnv{x: x, st: st, vars: map[string]Val{}, frame: fr, pos: pos, old: st.entry, where: "call-site annotation in " + fr.fn.Name()}
 	env.oldVars = map[string]Val{}
@@ -588,7 +610,7 @@ func (x *Exec) step(st *State) []*State {
 		return out
 	case *ssa.Call:
 		if site, anns := x.siteAnns(st, fr, i.Call.Pos()); len(anns) > 0 {
-			env := x.siteEnv(st, fr, i.Call.Pos())
+			env := x.siteEnvCall(st, fr, &i.Call)
 			for _, a := range anns {
 				if a.Kind == "assert" && !x.assumedOnly(a.Cl) {
 					t := x.evalBool(env, a.Cl.Expr, a.Cl)
@@ -1356,6 +1378,10 @@ func (x *Exec) jump(st *State, fr *Frame, to *ssa.BasicBlock) []*State {
 		x.havocLoop(st, fr, to)
 		cut := x.assumeLoopInv(st, fr, to)
 		fr.cut[to] = cut
+		if len(st.frames) == 1 {
+			k := li.ord[to]
+			x.addObligation(st, &Obligation{Name: fmt.Sprintf("%s/cover-loop%d", x.curFunc, k), Kind: "cover", Goal: tFalse, Desc: "loop invariants are satisfiable at the loop head (must be sat)"})
+		}
 	}
 	fr.prev = fr.block
 	fr.block = to
@@ -1445,6 +1471,16 @@ func (x *Exec) havocLoop(st *State, fr *Frame, head *ssa.BasicBlock) {
 	for b := range body {
 		for _, in := range b.Instrs {
 			x.instrModsLoop(st, fr, in, ms, allocs, &precise)
+			// ghosts assigned by call-site annotations inside the loop
+			if call, ok := in.(*ssa.Call); ok {
+				if _, anns := x.siteAnns(st, fr, call.Call.Pos()); len(anns) > 0 {
+					for _, a := range anns {
+						if a.Kind == "set" {
+							ms.ghosts[a.Ghost] = true
+						}
+					}
+				}
+			}
 		}
 	}
 	for a := range allocs.allocs {
@@ -1484,7 +1520,7 @@ func (x *Exec) havocLoop(st *State, fr *Frame, head *ssa.BasicBlock) {
 		}
 	}
 	x.havocModset(st, ms)
-	if !ms.all {
+	if !ms.all && !ms.heapAll {
 		for _, f := range precise {
 			f()
 		}
@@ -1606,6 +1642,10 @@ func (x *Exec) instrModsLoop(st *State, fr *Frame, in ssa.Instruction, ms *modse
 				ms.all = true
 				continue
 			}
+			if loc == "heap" {
+				ms.heapAll = true
+				continue
+			}
 			if _, isGhost := x.ghostSort(loc); isGhost {
 				ms.ghosts[loc] = true
 				continue
@@ -1656,12 +1696,13 @@ func (x *Exec) havocMapAt(st *State, mt *types.Map, m Term) {
 }
 
 type modset struct {
-	allocs map[*ssa.Alloc]bool
-	keys   map[string]bool // heap keys (prefix match on "S.f")
-	ghosts map[string]bool
-	elems  bool
-	maps   bool
-	all    bool
+	allocs  map[*ssa.Alloc]bool
+	keys    map[string]bool // heap keys (prefix match on "S.f")
+	ghosts  map[string]bool
+	elems   bool
+	maps    bool
+	all     bool
+	heapAll bool
 }
 
 func newModset() *modset {
@@ -1680,6 +1721,10 @@ func (x *Exec) havocModset(st *State, ms *modset) {
 		if s, ok := x.ghostSort(g); ok {
 			st.ghost[g] = st.fresh("ghost_"+g, s, nil)
 		}
+	}
+	if ms.heapAll {
+		st.havocAll()
+		return
 	}
 	// heap keys: drop every key that matches one of the modified fields (whole array forgotten)
 	for key := range ms.keys {
@@ -1908,6 +1953,8 @@ func (x *Exec) contractMods(c *Contract, ms *modset) {
 	}
 	for _, l := range c.Modifies {
 		switch {
+		case l == "heap":
+			ms.heapAll = true
 		case l == "*":
 			ms.all = true
 		case strings.HasPrefix(l, "elems("):
